@@ -567,15 +567,18 @@ class C15(Property):
       elif name == "call":
         if m.default is not m.NO_DEFAULT:
           args = tuple(range(op[1]))
+          # keyword arguments go to the default as well (also ones named
+          # like parameters of the dictionary's own methods)
+          kw = {} if op[1] % 2 == 0 else {"name": 1, "key": "k", "self_": 3}
           try:
-            got = sd(*args)
+            got = sd(*args, **kw)
           except Exception as exc:
             raise _Mismatch("unexpected-exception", "call",
-                            "sd%r raised %r" % (args, exc))
-          if got != m.default(*args):
+                            "sd(*%r, **%r) raised %r" % (args, kw, exc))
+          if got != m.default(*args, **kw):
             raise _Mismatch("model-mismatch", "call",
-                            "sd%r = %r, default gives %r"
-                            % (args, got, m.default(*args)))
+                            "sd(*%r, **%r) = %r, default gives %r"
+                            % (args, kw, got, m.default(*args, **kw)))
       events.append("%s %r" % (name, m.canon()))
       res.states.append(stable_hash(m.canon()))
       self._observe_sd(sd, m, name)
